@@ -249,6 +249,101 @@ class TcpOrigin:
             pass
 
 
+class FakeUpstream:
+    """a scripted upstream proxy (HTTP CONNECT or SOCKS5) that is also the origin: it answers the connector's handshake
+    with a success reply, optionally cut into segments (split) and / or with payload glued right behind it in the same
+    segment (glue), then hands the connection to the test thread like TcpOrigin does (conn.glue = what was already sent)"""
+
+    def __init__(self, kind):
+        self.kind = kind
+        self.ls = socket.socket(socket.AF_INET, socket.SOCK_STREAM)
+        self.ls.setsockopt(socket.SOL_SOCKET, socket.SO_REUSEADDR, 1)
+        self.ls.bind(("127.0.0.1", 0))
+        self.ls.listen(64)
+        self.port = self.ls.getsockname()[1]
+        self.q = queue.Queue()
+        self.stop = False
+        self.n = 0
+        self.policy = lambda n: {"glue": b"", "split": False}
+        threading.Thread(target=self._run, daemon=True).start()
+
+    def _run(self):
+        self.ls.settimeout(0.2)
+        while not self.stop:
+            try:
+                s, _ = self.ls.accept()
+            except socket.timeout:
+                continue
+            except OSError:
+                break
+            self.n += 1
+            threading.Thread(target=self._serve, args=(s, self.n), daemon=True).start()
+
+    def _serve(self, s, n):
+        c = Conn(s)
+        pol = self.policy(n)
+        try:
+            if self.kind == "http":
+                while b"\r\n\r\n" not in c.rx and not c.eof and c.err is None:
+                    if c.recv_some(timeout=3.0, want=1) == 0:
+                        break
+                head, _, rest = bytes(c.rx).partition(b"\r\n\r\n")
+                c.rx = bytearray(rest)
+                reply = b"HTTP/1.1 200 Connection established\r\nX-Upstream: scripted\r\n\r\n"
+                cuts = [len(reply) - 3, len(reply) - 1]
+            else:
+                def need(k):
+                    while len(c.rx) < k and not c.eof and c.err is None:
+                        if c.recv_some(timeout=3.0, want=1) == 0:
+                            break
+                    return len(c.rx) >= k
+                if not need(2) or not need(2 + c.rx[1]):
+                    c.close()
+                    return
+                c.rx = c.rx[2 + c.rx[1]:]
+                c.send(b"\x05\x00")
+                if not need(5):
+                    c.close()
+                    return
+                alen = {1: 4, 4: 16}.get(c.rx[3], None)
+                total = 4 + (alen if alen is not None else 1 + c.rx[4]) + 2
+                if not need(total):
+                    c.close()
+                    return
+                c.rx = c.rx[total:]
+                name = b"bound.upstream.example"
+                reply = b"\x05\x00\x00\x03" + bytes([len(name)]) + name + b"\x1f\x90"
+                cuts = [5 + len(name) // 2, len(reply) - 1]
+            glue = pol.get("glue", b"")
+            if pol.get("split"):
+                last = 0
+                for k in cuts:
+                    c.send(reply[last:k])
+                    last = k
+                    time.sleep(0.03)
+                c.send(reply[last:] + glue)
+            else:
+                c.send(reply + glue)
+            c.glue = glue
+            c.policy = pol
+            self.q.put(c)
+        except OSError:
+            c.close()
+
+    def accept(self, timeout=3.0):
+        try:
+            return self.q.get(timeout=timeout)
+        except queue.Empty:
+            return None
+
+    def close(self):
+        self.stop = True
+        try:
+            self.ls.close()
+        except OSError:
+            pass
+
+
 class UdpOrigin:
     """UDP socket that records datagrams; optionally echoes them back prefixed with b'R:'"""
 
